@@ -9,7 +9,8 @@
 EXTENDS Neighbours, TLC, Json, IOUtils
 
 CONSTANT NBlocks
-Traces == JsonDeserialize(IOEnv.TRACE_FILE).traces
+ASSUME TLCSet(1, JsonDeserialize(IOEnv.TRACE_FILE).traces)     \* parsed once, not once per worker
+Traces == TLCGet(1)
 VARIABLES blk, tid
 
 SeqSet(s) == {s[i] : i \in DOMAIN s}
